@@ -80,9 +80,25 @@ def parser_consts(repo, info):
     return '\n'.join(L) + '\n'
 
 
+def runtime_tables(info):
+    """Tables of the running interpreter (the one the library runs under): str.isspace, re \\s."""
+    import re as _re
+    import sys
+    isspace = [cp for cp in range(sys.maxunicode + 1) if chr(cp).isspace()]
+    ws = _re.compile(r'\s')
+    re_s = [cp for cp in range(sys.maxunicode + 1) if ws.match(chr(cp))]
+    info['runtime'] = {'isspace': isspace, 're_s': re_s}
+    L = ['/-- code points for which the running interpreter\'s `str.isspace` is true -/',
+         'def pyIsSpaceCodes : List Nat := [' + ', '.join(map(str, isspace)) + ']',
+         '/-- code points matched by the running interpreter\'s regular-expression class `\\s` (str patterns) -/',
+         'def pyReSpaceCodes : List Nat := [' + ', '.join(map(str, re_s)) + ']']
+    return '\n'.join(L) + '\n'
+
+
 def generate(repo):
     info = {}
     parts = ['import Bluebell.Peg.Syntax\nnamespace Bluebell\n']
     parts.append(parser_consts(repo, info))
+    parts.append(runtime_tables(info))
     parts.append('end Bluebell\n')
     return '\n'.join(parts), info
